@@ -67,7 +67,7 @@ def region3d(t, tag, c, size, hz):
 
 def dim(t, tag, base=1.0):
     """A size: constant, Range, or arithmetic over Ranges (the supportInterval paths of + - * rsub)."""
-    k = t.weighted([4, 4, 1, 1, 1], tag + "kind")
+    k = t.weighted([3, 3, 3, 1, 1], tag + "kind")
     a = base * (0.5 + 0.25 * t.draw(5, tag + "a"))
     b = a + base * 0.25 * (1 + t.draw(4, tag + "b"))
     return [num(a), f"Range({num(a)}, {num(b)})", f"(Range({num(b)}, {num(b + 0.5)}) - Range(0, {num(b - a)}))",
@@ -169,8 +169,8 @@ def place(t, tag, o, region_name, ref, flat):
 
 
 def gen(t):
-    fam = t.weighted([3, 2, 3, 3], "family")
-    P = types.SimpleNamespace(family=["contain2d", "contain3d", "heading", "visibility"][fam], mode2D=False, reqs=[], objs=[], cells=None)
+    fam = t.weighted([3, 2, 4, 3], "family")
+    P = types.SimpleNamespace(family=["contain2d", "contain3d", "heading", "visibility"][fam], mode2D=False, reqs=[], objs=[], cells=None, fields={})
     lines, consts = [], []
     nobj = (2 + t.draw(2, "nobj")) if fam == 2 else 1 + t.draw(3, "nobj")
     names = ["ego"] + [f"o{i}" for i in range(1, nobj)]
@@ -212,18 +212,26 @@ def gen(t):
         oriented = t.draw(3, "oriented-region") == 2
         if oriented:
             lines.append("union = PolygonalRegion(polygon=union.polygons, orientation=vf)")
+        P.fields = {"vf": hs}
+        if t.draw(3, "second-field") == 2:  # other objects may follow another field over the same cells
+            P.fields["vg"] = [[math.pi / 2, 0.0, -math.pi / 4, 2.5][t.draw(4, f"cellg{k}")] for k in range(n)]
+            lines.append('vg = PolygonalVectorField("G", [%s])' % ", ".join(f"[r{k}.polygons, {num(h)}]" for k, h in enumerate(P.fields["vg"])))
         bref = rr.PolyRef([np.array(r, float) for r, _ in P.cells], (0.0, 0.0, 0.0), kind="polygon", desc={"cells": n, "gap": gap})
         for i, nm in enumerate(names):
             o = new_obj(nm, base=bref, spec=["in union"])
-            k = t.weighted([8, 1, 1], f"o{i}.align")
+            k = t.weighted([10, 1, 1], f"o{i}.align")
             if k == 0:
-                o.field = True
-                if not oriented or t.draw(2, f"o{i}.facing-too"):
+                f = "vg" if i and "vg" in P.fields and not oriented and t.draw(2, f"o{i}.vg") else "vf"
+                o.field = P.fields[f]
+                if not oriented:  # (in an oriented region the heading already follows vf; `facing vf` on top of it is not matched)
+                    o.spec.append(f"facing {f}")
+                elif t.draw(8, f"o{i}.facing-too") == 7:
                     o.spec.append("facing vf")
             elif k == 1:
                 o.spec.append(f"facing Range(-0.2, {num(0.1 + 0.1 * t.draw(3, f'o{i}.r'))}) relative to vf")
             else:
-                o.spec.append(f"facing Range({num(ANG[t.draw(5, f'o{i}.f0')] - 0.5)}, {num(ANG[t.draw(5, f'o{i}.f0b')] + 3.0)})")
+                lo = ANG[t.draw(5, f"o{i}.f0")] - 0.5
+                o.spec.append(f"facing Range({num(lo)}, {num(lo + 1.0 + t.draw(3, f'o{i}.f0b'))})")
             if i and (v := t.weighted([2, 1, 1], f"o{i}.vis")):
                 o.spec.append(["with requireVisible True", "visible from ego"][v - 1])
                 o.require_visible, o.visible_from = v == 1, ("ego" if v == 2 else None)
@@ -276,10 +284,12 @@ def gen(t):
     for i, o in enumerate(P.objs):  # (1 ray per degree instead of 5: a visibility check costs 10 ms instead of 200 ms)
         o.spec += [f"with cid {i}"] + ([] if collide else ["with allowCollisions True"]) + (["with viewRayDensity 1"] if fam >= 2 else [])
         lines.append(f"{o.name} = new Object " + ", ".join(o.spec))
-    if fam == 2:  # a relative-heading bound, usually with something that bounds the distance, then anything
-        diffs = sorted({round(norm_angle(h2 - h1), 6) for _, h1 in P.cells for _, h2 in P.cells}, key=lambda d: (abs(d), d))
-        for i in range(1 + t.weighted([2, 3, 1], "nreq")):
-            q = "rh" if i == 0 or t.draw(3, f"q{i}.quantity") == 2 else "dist"
+    if fam == 2:  # a relative-heading bound, something that bounds the distance (a statement unless o1 must be visible), then anything
+        allh = [h for f in P.fields.values() for h in f]
+        diffs = sorted({round(norm_angle(h2 - h1), 6) for h1 in allh for h2 in allh}, key=lambda d: (abs(d), d))
+        bounded = P.objs[1].require_visible or P.objs[1].visible_from
+        for i in range(max(1 + t.weighted([2, 3, 1], "nreq"), 1 if bounded else 2)):
+            q = "rh" if i == 0 or (i > 1 and t.draw(3, f"q{i}.quantity") == 2) else "dist"
             P.reqs.append(requirement(t, f"q{i}.", i, q, names[1 if i < 2 else 1 + t.draw(nobj - 1, f"q{i}.target")], consts, 24.0, diffs))
     elif nobj > 1 and t.draw(2, "nreq"):
         P.reqs.append(requirement(t, "q0.", 0, "dist", names[1 + t.draw(nobj - 1, "q0.target")], consts, S if fam < 2 else W))
